@@ -301,7 +301,7 @@ def reference(case: dict, phase: str = "all") -> dict:
                 except G.Undefined as u:
                     return {"v": "undefined", "why": f"{it['name']}: {u.kind} {u.detail}", "kind": u.kind}
                 except G.TooBig:
-                    return {"v": "undefined", "why": "too big", "kind": "TooBig"}
+                    return {"v": "unknown", "why": "an intermediate value is beyond the resource bound of the reference", "kind": "TooBig"}
                 if val != size:
                     return {"v": "reject", "why": f"{it['name']}: expression axis {ps[0]} = {val} vs {size}"}
             if kind in ("name", "namelit", "nameexpr"):
